@@ -10,7 +10,7 @@ PID = "C05"
 ANCHORS = ["cm.py:ConfusionMatrix.__init__", "cm.py:ConfusionMatrix._assign_from_predictions", "cm.py:ConfusionMatrix._assign_from_matrix",
            "cm.py:ConfusionMatrix.one_vs_all", "cm.py:ConfusionMatrix._class_metric_as_dict", "cm.py:cm_class_metric.<locals>.decorator.<locals>.wrapper"]
 RAISES_ARE_VIOLATIONS = True
-DECIDING = {"M-cmx": 20000, "R-cmx": 20000}
+DECIDING = {"M-cmx": 42640, "R-cmx": 11691}
 THOROUGH_EXTRA = ["W2"]
 RULE = (
     "R-cmx per case: a dictionary tally of weights per (label, prediction) in the requested class order must equal ConfusionMatrix(labels, "
